@@ -1583,7 +1583,7 @@ func ruleC08StorageDoesNotRelease(c *Ctx) {
 // makes envelopes that every region could unwrap undecryptable.
 func ruleC17KEKMatchedByRegion(c *Ctx) {
 	u := c.U1
-	c.rule("C17.kek-matched-by-region", "in both KMS plugins a regional KEK (a struct with Region and EncryptedKEK) is selected only by its Region: every comparison involving a field of a KEK compares .Region with a region (a .Region field or a parameter fed with one), every map of KEKs is filled with key kek.Region and indexed with <client>.Region", 3)
+	c.rule("C17.kek-matched-by-region", "in both KMS plugins a regional KEK (a struct with Region and EncryptedKEK) is selected only by its Region: every comparison involving a field of a KEK compares .Region with a region (a .Region field or a parameter fed with one), every map of KEKs is filled with key kek.Region and indexed with <client>.Region", 2)
 	isKEK := func(t types.Type) bool {
 		if p, ok := types.Unalias(t).Underlying().(*types.Pointer); ok {
 			t = p.Elem()
